@@ -25,7 +25,7 @@ ID = "C08"
 LEVEL = "model_checking"
 MIN_OUTCOMES = 4
 MANIFEST = {
-    'text': 'Explicit-state search over operation sequences on real temporary git repositories: every sequence of the 10-operation alphabet up to depth 3/5 (plus, thorough, length-12 runs with <= 2 deviations) is executed with the real CLI (three project layouts, one of them with a configured path spelled `docs/../setup.py`), snapshots are reused and canonical states (work tree, index status, branch heads, tags, date) are hashed and merged; after every step config, every constructed occurrence, `show`, the newest tag and HEAD must agree as the property states, failing invocations must leave the state unchanged, and the default next update must succeed from every clean reachable state.',
+    'text': 'Explicit-state search over operation sequences on real temporary git repositories: every sequence of the 10-operation alphabet up to depth 3/5 (plus, thorough, length-12 runs with <= 2 deviations) is executed with the real CLI (three project layouts, one with a configured path spelled `docs/../setup.py`, one whose repository data lives outside the work tree (`.git` is a file), one that reaches its config file through `*.toml`), snapshots are reused and canonical states (work tree, index status, branch heads, tags, date) are hashed and merged; after every step config, every constructed occurrence, `show`, the newest tag and HEAD must agree as the property states, failing invocations must leave the state unchanged, and the default next update must succeed from every clean reachable state.',
     'note': 'histories longer than 5 with more than 2 deviations, remotes and merges are outside the bound',
     'technique': 'explicit-state model checking: bounded exhaustive search over operation histories with state hashing on real git + real CLI',
 }
